@@ -1,9 +1,11 @@
-From ST Require Import Base.Ints Model.NtpTime Model.Exchange Model.ExchangeOracle Proofs.NtpTimeProofs.
+From ST Require Import Base.Ints Model.NtpTime Model.Exchange Model.ExchangeOracle Model.ExchangeWorld Proofs.NtpTimeProofs.
 From Coq Require Import ZArith Lia List Bool.
+Import ListNotations.
 Open Scope Z_scope.
 Ltac Zify.zify_post_hook ::= Z.to_euclidean_division_equations.
 
-Definition dur_ok (d : Z) : Prop := - 2^61 <= d <= 2^61.
+(* durations that fit int64 with room for one addition: |d| < 2^62 ns (146 years) *)
+Definition dur_ok (d : Z) : Prop := - 2^62 < d < 2^62.
 
 Lemma sat64_id x : min_i64 <= x <= max_i64 -> sat64 x = x.
 Proof. unfold sat64, min_i64, max_i64. intros H. destruct (x <? _) eqn:E1; [lia|]. destruct (_ <? x) eqn:E2; lia. Qed.
@@ -13,7 +15,7 @@ Lemma clock_offset_val t0 t1 t2 t3 :
   clock_offset t0 t1 t2 t3 = Z.quot ((t1 - t0) + (t2 - t3)) 2.
 Proof.
   unfold dur_ok, clock_offset, time_sub, go_div. intros H1 H2.
-  change (2^61) with 2305843009213693952 in *.
+  change (2^62) with 4611686018427387904 in *.
   rewrite !sat64_id by (unfold min_i64, max_i64; lia).
   rewrite (i64_id (t1 - t0 + (t2 - t3))) by (unfold min_i64, max_i64; lia).
   apply i64_id. unfold min_i64, max_i64.
@@ -26,7 +28,7 @@ Lemma rtd_val t0 t1 t2 t3 :
   round_trip_delay t0 t1 t2 t3 = (t3 - t0) - (t2 - t1).
 Proof.
   unfold dur_ok, round_trip_delay, time_sub. intros H1 H2.
-  change (2^61) with 2305843009213693952 in *.
+  change (2^62) with 4611686018427387904 in *.
   rewrite !sat64_id by (unfold min_i64, max_i64; lia).
   apply i64_id. unfold min_i64, max_i64. lia.
 Qed.
@@ -63,4 +65,444 @@ Proof.
   pose proof (quot2_bounds (t1 - t0 + (t2 - t3))) as Q.
   unfold bound_ok, rounding_slack. unfold d1, d2 in *.
   repeat split; lia.
+Qed.
+
+Lemma t64_eqb_eq x y : t64_eqb x y = true <-> x = y.
+Proof.
+  destruct x as [a b], y as [c d]. unfold t64_eqb. cbn.
+  rewrite andb_true_iff, !Z.eqb_eq. split; [intros [-> ->]; reflexivity|intros H; inversion H; auto].
+Qed.
+
+Lemma t64_eqb_neq x y : x <> y -> t64_eqb x y = false.
+Proof. intros H. destruct (t64_eqb x y) eqn:E; [apply t64_eqb_eq in E; contradiction|reflexivity]. Qed.
+
+(* Time64FromTime is injective on times of one era *)
+Lemma t64_inj_era a b :
+  a < b -> era_of a = era_of b -> time_ok a -> time_ok b -> time64_of_time a <> time64_of_time b.
+Proof.
+  unfold era_of, time_ok, time64_of_time. intros Hlt He Ha Hb Heq.
+  injection Heq as Hs Hf.
+  destruct (time_sec_nsec a) as [Da Ra]. destruct (time_sec_nsec b) as [Db Rb].
+  rewrite !frac_value in Hf by (unfold nanos_per_sec in *; lia).
+  unfold u32, ntp_epoch, secs_per_era in *.
+  change (2^60) with 1152921504606846976 in *.
+  rewrite !i64_id in Hs by (unfold min_i64, max_i64; lia).
+  unfold nanos_per_sec in *.
+  assert (time_sec a = time_sec b) by lia.
+  assert (time_nsec a < time_nsec b) by lia.
+  lia.
+Qed.
+
+(* ---- bookkeeping invariants ---- *)
+Fixpoint reqs_ok (l : list reqinfo) : Prop :=
+  match l with [] => True | q :: r => q_id q = length r /\ reqs_ok r end.
+
+Lemma reqs_ok_lt l : reqs_ok l -> forall q, In q l -> (q_id q < length l)%nat.
+Proof.
+  induction l as [|x r IH]; cbn; intros H q Hin; [contradiction|].
+  destruct H as [Hx Hr]. destruct Hin as [->|Hin]; [lia|]. specialize (IH Hr q Hin). lia.
+Qed.
+
+Lemma reqs_ok_inj l : reqs_ok l -> forall q q', In q l -> In q' l -> q_id q = q_id q' -> q = q'.
+Proof.
+  induction l as [|x r IH]; cbn; intros H q q' Hq Hq' Hid; [contradiction|].
+  destruct H as [Hx Hr].
+  destruct Hq as [->|Hq], Hq' as [->|Hq']; auto.
+  - pose proof (reqs_ok_lt r Hr q' Hq'). lia.
+  - pose proof (reqs_ok_lt r Hr q Hq). lia.
+Qed.
+
+Fixpoint exs_ok (l : list exch) : Prop :=
+  match l with [] => True | e :: r => ex_ok r e /\ exs_ok r end.
+
+Lemma exs_ok_in l : exs_ok l -> forall e, In e l ->
+  exists r, ex_ok r e /\ (forall e0, In e0 r -> In e0 l).
+Proof.
+  induction l as [|x r IH]; cbn; intros H e Hin; [contradiction|].
+  destruct H as [Hx Hr]. destruct Hin as [->|Hin].
+  - exists r. split; auto.
+  - destruct (IH Hr e Hin) as [r' [H1 H2]]. exists r'. split; auto.
+Qed.
+
+Lemma exs_ok_uniq l : exs_ok l -> forall e e', In e l -> In e' l ->
+  time64_of_time (e_srx e) = time64_of_time (e_srx e') -> e = e'.
+Proof.
+  induction l as [|x r IH]; cbn; intros H e e' He He' Heq; [contradiction|].
+  destruct H as [Hx Hr]. destruct Hx as [_ [_ [_ [Hu _]]]].
+  destruct He as [->|He], He' as [->|He']; auto.
+  - exfalso. apply (Hu e' He'). auto.
+  - exfalso. apply (Hu e He). auto.
+Qed.
+
+Definition prev_link (ref : Z) (w : world) : Prop :=
+  p_ref (w_prev w) = ref ->
+  exists e crx, w_gprev w = Some (e, crx) /\ In e (w_exs w) /\ arrival_ok (e_q e) e crx /\
+    p_ctx (w_prev w) = time64_of_time (q_ctx (e_q e)) /\
+    p_crx (w_prev w) = time64_of_time crx /\
+    p_srx (w_prev w) = time64_of_time (e_srx e).
+
+Definition cur_ok (c : cfg) (ref : Z) (w : world) : Prop :=
+  w_open w = true ->
+  exists q, cur w = Some q /\ build_request c ref (w_prev w) (q_now0 q) = (q_ireq q, q_pkt q).
+
+Definition Inv (c : cfg) (ref : Z) (w : world) : Prop :=
+  reqs_ok (w_reqs w) /\ exs_ok (w_exs w) /\
+  (forall e, In e (w_exs w) -> In (e_q e) (w_reqs w)) /\
+  cur_ok c ref w /\ prev_link ref w /\ (c_im c = false -> p_ref (w_prev w) <> ref).
+
+(* which exchange the four stamps of an accepted response belong to *)
+Definition T (q : reqinfo) (x : Z) : Z := time_of_time64 (time64_of_time x) (q_now0 q).
+
+Definition paired_basic (q : reqinfo) (e : exch) (crx : Z) (a : accept_t) : Prop :=
+  a_inter a = false /\ e_q e = q /\
+  a_t0 a = q_ctx q /\ a_t1 a = T q (e_srx e) /\ a_t2 a = T q (e_stx e) /\ a_t3 a = crx.
+
+Definition paired_inter (w : world) (q : reqinfo) (a : accept_t) : Prop :=
+  a_inter a = true /\
+  exists e' c', w_gprev w = Some (e', c') /\ In e' (w_exs w) /\ arrival_ok (e_q e') e' c' /\
+    a_t0 a = T q (q_ctx (e_q e')) /\ a_t1 a = T q (e_srx e') /\ a_t2 a = T q (e_rtx e') /\ a_t3 a = T q c'.
+
+
+(* what an accepted response looks like *)
+Lemma process_accept c ref p ireq req now0 ctx1 resp crx cr a :
+  process_response c ref p ireq req now0 ctx1 resp crx cr = DAccept a ->
+  exists inter : bool,
+    classify ireq req resp = (if inter then RInter else RBasic) /\
+    a_inter a = inter /\
+    (a_t0 a, a_t1 a, a_t2 a, a_t3 a) = select_ts inter p now0 ctx1 crx resp /\
+    a_off a = clock_offset (a_t0 a) (a_t1 a) (a_t2 a) (a_t3 a) /\
+    a_rtd a = round_trip_delay (a_t0 a) (a_t1 a) (a_t2 a) (a_t3 a) /\
+    a_ts a = crx /\
+    a_prev a = update_prev c ref p inter ctx1 crx resp.
+Proof.
+  unfold process_response. intros H.
+  destruct (classify ireq req resp) eqn:C.
+  - destruct (negb (metadata_ok resp)); [discriminate|].
+    destruct (select_ts true p now0 ctx1 crx resp) as [[[t0 t1] t2] t3] eqn:S.
+    destruct (time_sub t3 t0 <? 0); [discriminate|].
+    destruct (time_sub t2 t1 <? 0); [discriminate|].
+    injection H as <-. exists true. cbn [a_inter a_t0 a_t1 a_t2 a_t3 a_off a_rtd a_ts a_prev].
+    rewrite S. repeat split; reflexivity.
+  - destruct (negb (metadata_ok resp)); [discriminate|].
+    destruct (select_ts false p now0 ctx1 crx resp) as [[[t0 t1] t2] t3] eqn:S.
+    destruct (time_sub t3 t0 <? 0); [discriminate|].
+    destruct (time_sub t2 t1 <? 0); [discriminate|].
+    injection H as <-. exists false. cbn [a_inter a_t0 a_t1 a_t2 a_t3 a_off a_rtd a_ts a_prev].
+    rewrite S. repeat split; reflexivity.
+  - destruct cr; discriminate.
+Qed.
+
+Lemma t64_eqb_refl x : t64_eqb x x = true.
+Proof. apply t64_eqb_eq. reflexivity. Qed.
+
+Lemma accept_pairing c ref w q e crx a :
+  Inv c ref w -> accepts c ref w q e crx a ->
+  (paired_basic q e crx a \/ paired_inter w q a) /\
+  a_prev a = update_prev c ref (w_prev w) (a_inter a) (q_ctx q) crx (e_reply e) /\
+  k_rx (e_reply e) = time64_of_time (e_srx e) /\ e_q e = q /\
+  a_off a = clock_offset (a_t0 a) (a_t1 a) (a_t2 a) (a_t3 a) /\
+  a_rtd a = round_trip_delay (a_t0 a) (a_t1 a) (a_t2 a) (a_t3 a).
+Proof.
+  intros [Hreqs [Hexs [Hq [Hcur [Hlink Him]]]]] [Hopen [Hc [Hin [Hid [Harr Hacc]]]]].
+  destruct (Hcur Hopen) as [q' [Hc' Hbuild]]. rewrite Hc in Hc'. injection Hc' as <-.
+  assert (Hqin : In q (w_reqs w)).
+  { unfold cur in Hc. destruct (w_reqs w) as [|x r]; [discriminate|]. injection Hc as ->. left; reflexivity. }
+  assert (Heq : e_q e = q) by (apply (reqs_ok_inj _ Hreqs); auto).
+  destruct (exs_ok_in _ Hexs e Hin) as [r [Hex Hsub]].
+  destruct Hex as [_ [_ [_ [_ Hconf]]]]. rewrite Heq in Hconf.
+  assert (Hrx : k_rx (e_reply e) = time64_of_time (e_srx e)).
+  { destruct Hconf as [[_ [H _]]|[_ [_ [H _]]]]; exact H. }
+  unfold client_recv in Hacc.
+  apply process_accept in Hacc.
+  destruct Hacc as [inter [Hcls [Hinter [Hts [Hoff [Hrtd [_ Hprev]]]]]]].
+  rewrite <- Hinter in Hprev.
+  split; [|split; [exact Hprev|split; [assumption|split; [assumption|split; assumption]]]].
+  clear Hoff Hrtd.
+  unfold build_request in Hbuild.
+  destruct (want_interleaved c ref (w_prev w) (q_now0 q)) eqn:W.
+  - (* interleaved request *)
+    injection Hbuild as Hireq Hpkt.
+    unfold want_interleaved in W. apply andb_prop in W. destruct W as [W1 W3].
+    apply andb_prop in W1. destruct W1 as [W1 W2]. apply Z.eqb_eq in W2.
+    destruct (Hlink (eq_sym W2)) as [e' [c' [Hg [Hin' [Harr' [Pctx [Pcrx Psrx]]]]]]].
+    assert (Hdiff : p_ctx (w_prev w) <> p_crx (w_prev w)).
+    { rewrite Pctx, Pcrx. destruct Harr' as [A1 [A2 [A3 [A4 _]]]]. apply t64_inj_era; auto. }
+    rewrite <- Hireq, <- Hpkt in Hcls. unfold classify in Hcls. cbn [k_rx k_tx k_org andb] in Hcls.
+    destruct Hconf as [[Ho [_ Ht]]|[Ho [_ [_ [e0 [Hin0 [Hs0 Ht]]]]]]].
+    + (* basic reply *)
+      rewrite <- Hpkt in Ho. cbn [k_tx] in Ho.
+      rewrite Ho, (t64_eqb_neq _ _ Hdiff), t64_eqb_refl in Hcls.
+      destruct inter; [discriminate|].
+      left. unfold paired_basic, T. unfold select_ts in Hts. injection Hts as -> -> -> ->.
+      rewrite Hrx, Ht. repeat split; first [assumption | reflexivity].
+    + (* interleaved reply *)
+      rewrite <- Hpkt in Ho, Hs0. cbn [k_rx k_org] in Ho, Hs0.
+      rewrite Ho, t64_eqb_refl in Hcls.
+      destruct inter; [|discriminate].
+      right. unfold paired_inter, T. split; [assumption|].
+      assert (e0 = e').
+      { apply (exs_ok_uniq _ Hexs); auto. rewrite Hs0. exact Psrx. }
+      subst e0. exists e', c'. unfold select_ts in Hts. injection Hts as -> -> -> ->.
+      rewrite Ht, Pctx, Pcrx, Psrx.
+      split; [exact Hg|split; [exact Hin'|split; [exact Harr'|repeat split; reflexivity]]].
+  - (* basic request *)
+    injection Hbuild as Hireq Hpkt.
+    rewrite <- Hireq, <- Hpkt in Hcls. unfold classify in Hcls. cbn [k_rx k_tx k_org andb] in Hcls.
+    destruct Hconf as [[Ho [_ Ht]]|[Ho [Hne _]]].
+    + rewrite <- Hpkt in Ho. cbn [k_tx] in Ho. rewrite Ho, t64_eqb_refl in Hcls.
+      destruct inter; [discriminate|].
+      left. unfold paired_basic, T. unfold select_ts in Hts. injection Hts as -> -> -> ->.
+      rewrite Hrx, Ht. repeat split; first [assumption | reflexivity].
+    + (* an interleaved reply to a basic request is never accepted *)
+      exfalso. rewrite <- Hpkt in Ho, Hne. cbn [k_rx k_tx] in Ho, Hne. rewrite Ho in Hcls.
+      rewrite (t64_eqb_neq _ _ Hne) in Hcls. destruct inter; discriminate.
+Qed.
+
+
+(* ---- the invariant holds in every reachable state ---- *)
+Lemma inv_init c ref : ref <> 0 -> Inv c ref w_init.
+Proof.
+  intros Hr. unfold Inv, w_init, cur_ok, prev_link. cbn.
+  repeat split; try tauto; try discriminate.
+  - intros H. exfalso. apply Hr. symmetry. exact H.
+  - intros _ H. apply Hr. symmetry. exact H.
+Qed.
+
+Lemma inv_close c ref w : Inv c ref w -> Inv c ref (w_close w).
+Proof.
+  intros [H1 [H2 [H3 [H4 [H5 H6]]]]]. unfold Inv, w_close, cur_ok, prev_link in *. cbn.
+  repeat split; auto. discriminate.
+Qed.
+
+Lemma inv_retry c ref w : w_open w = true -> Inv c ref w -> Inv c ref (w_retry w).
+Proof.
+  intros Ho [H1 [H2 [H3 [H4 [H5 H6]]]]]. unfold Inv, w_retry, cur_ok, prev_link, cur in *. cbn.
+  repeat split; auto.
+Qed.
+
+Lemma step_inv c ref w w' : Inv c ref w -> step c ref w w' -> Inv c ref w'.
+Proof.
+  intros HI Hs. destruct Hs as [w now0 ctx ireq pk Hopen Hb | w e Hq Hex | w q e crx Hopen Hc Hin Hid Harr | w Hopen | w Hopen | w p Hopen Hp].
+  - (* send *)
+    destruct HI as [H1 [H2 [H3 [H4 [H5 H6]]]]].
+    unfold Inv, w_send, cur_ok, prev_link, cur in *. cbn.
+    repeat split; auto.
+    intros _. eexists. split; [reflexivity|]. cbn. exact Hb.
+  - (* handle *)
+    destruct HI as [H1 [H2 [H3 [H4 [H5 H6]]]]].
+    unfold Inv. split; [exact H1|]. split; [cbn; split; assumption|].
+    split; [intros e0 [<-|Hin0]; auto|]. split; [exact H4|]. split; [|exact H6].
+    intros Hr. destruct (H5 Hr) as [e' [c' [A [B C]]]]. exists e', c'.
+    split; [exact A|split; [right; exact B|exact C]].
+  - (* recv *)
+    unfold after_recv. destruct (client_recv c ref w q e crx) as [|err|a] eqn:R.
+    + apply inv_retry; assumption.
+    + apply inv_close; assumption.
+    + assert (Hacc : accepts c ref w q e crx a) by (unfold accepts; auto 10).
+      destruct (accept_pairing c ref w q e crx a HI Hacc) as [_ [Hprev [Hrx [Heq _]]]].
+      destruct HI as [H1 [H2 [H3 [H4 [H5 H6]]]]].
+      unfold Inv. split; [exact H1|]. split; [exact H2|]. split; [exact H3|].
+      split; [intros Ho; discriminate Ho|]. split.
+      * unfold prev_link. cbn [w_accept w_prev w_gprev w_exs]. intros Hr.
+        rewrite Hprev in Hr |- *. unfold update_prev in *.
+        destruct (c_im c) eqn:Im.
+        -- exists e, crx. cbn [p_ctx p_crx p_srx]. rewrite Heq.
+           split; [reflexivity|split; [exact Hin|split; [exact Harr|split; [reflexivity|split; [reflexivity|exact Hrx]]]]].
+        -- exfalso. exact (H6 eq_refl Hr).
+      * cbn [w_accept w_prev]. intros Im. rewrite Hprev. unfold update_prev. rewrite Im. exact (H6 Im).
+  - (* junk *)
+    destruct (w_retries w =? 1); [apply inv_close|apply inv_retry]; assumption.
+  - apply inv_close; assumption.
+  - (* other reference / reset *)
+    destruct HI as [H1 [H2 [H3 [H4 [H5 H6]]]]].
+    unfold Inv, w_setprev, cur_ok, prev_link, cur in *. cbn.
+    repeat split; auto.
+    + intros Ho. rewrite Ho in Hopen. discriminate.
+    + intros Hr. contradiction.
+Qed.
+
+Theorem reachable_inv c ref w : ref <> 0 -> reachable c ref w -> Inv c ref w.
+Proof.
+  intros Hr H. induction H as [|w w' _ IH Hs]; [apply inv_init; assumption|].
+  apply (step_inv c ref w w'); assumption.
+Qed.
+
+
+(* ---- the bound for an accepted response ---- *)
+Definition mag_ok (d : Z) : Prop := - 2^61 <= d <= 2^61.
+Definition near (q : reqinfo) (x : Z) : Prop := in_window x (q_now0 q).
+
+(* exchange ex (transmit stamp tx, arrival cx) lies within the window of the
+   client's clock reading and its durations are below 2^61 ns (73 years) *)
+Definition stamps_near (q : reqinfo) (ex : exch) (tx cx : Z) : Prop :=
+  time_ok (q_now0 q) /\ near q (q_ctx (e_q ex)) /\ near q (e_srx ex) /\ near q tx /\ near q cx /\
+  mag_ok (e_srx ex - q_ctx (e_q ex)) /\ mag_ok (tx - cx) /\ mag_ok (cx - q_ctx (e_q ex)) /\ mag_ok (tx - e_srx ex).
+
+Definition bound_for (a : accept_t) (ctx srx stx crx theta : Z) : Prop :=
+  let d1 := srx - theta - ctx in let d2 := crx - (stx - theta) in
+  0 <= d1 /\ 0 <= d2 /\
+  2 * Z.abs (a_off a - theta) <= d1 + d2 + 3 /\
+  Z.abs (a_rtd a - (d1 + d2)) <= 2 /\
+  (forall lo hi, lo <= ctx -> crx <= hi ->
+     C03_ok1 (a_off a) (a_t0 a) (a_t1 a) (a_t2 a) (a_t3 a)
+       {| x_lo0 := lo; x_srx := srx; x_stx := stx; x_theta := theta; x_hi3 := hi |} = true).
+
+Lemma bound_core a ctx srx stx crx theta :
+  ctx - 1 <= a_t0 a <= ctx -> srx - 1 <= a_t1 a <= srx -> stx - 1 <= a_t2 a <= stx -> crx - 1 <= a_t3 a <= crx ->
+  a_off a = clock_offset (a_t0 a) (a_t1 a) (a_t2 a) (a_t3 a) ->
+  a_rtd a = round_trip_delay (a_t0 a) (a_t1 a) (a_t2 a) (a_t3 a) ->
+  ctx + theta <= srx -> stx - theta <= crx ->
+  mag_ok (srx - ctx) -> mag_ok (stx - crx) -> mag_ok (crx - ctx) -> mag_ok (stx - srx) ->
+  bound_for a ctx srx stx crx theta.
+Proof.
+  intros H0 H1 H2 H3 Ho Hr Hd1 Hd2 M1 M2 M3 M4.
+  unfold mag_ok in *. change (2^61) with 2305843009213693952 in *.
+  assert (D1 : dur_ok (a_t1 a - a_t0 a)) by (unfold dur_ok; change (2^62) with 4611686018427387904; lia).
+  assert (D2 : dur_ok (a_t2 a - a_t3 a)) by (unfold dur_ok; change (2^62) with 4611686018427387904; lia).
+  assert (D3 : dur_ok (a_t3 a - a_t0 a)) by (unfold dur_ok; change (2^62) with 4611686018427387904; lia).
+  assert (D4 : dur_ok (a_t2 a - a_t1 a)) by (unfold dur_ok; change (2^62) with 4611686018427387904; lia).
+  destruct (arith_trunc (a_t0 a) (a_t1 a) (a_t2 a) (a_t3 a) ctx srx stx crx theta H0 H1 H2 H3
+              ltac:(lia) ltac:(lia) D1 D2 D3 D4) as [B1 [B2 B3]].
+  rewrite <- Ho in B1, B3. rewrite <- Hr in B2.
+  unfold bound_for. cbv zeta. split; [lia|]. split; [lia|]. split; [exact B1|]. split; [exact B2|].
+  intros lo hi Hlo Hhi. unfold C03_ok1, stamps_in. cbn [x_lo0 x_srx x_stx x_theta x_hi3].
+  rewrite B3. rewrite !andb_true_iff, !Z.leb_le. lia.
+Qed.
+
+Lemma T_bounds q x : time_ok (q_now0 q) -> near q x -> x - 1 <= T q x <= x.
+Proof. intros Ht Hn. unfold T. apply (roundtrip x (q_now0 q)); assumption. Qed.
+
+Theorem accept_bound c ref w q e crx a :
+  ref <> 0 -> reachable c ref w -> accepts c ref w q e crx a ->
+  (a_inter a = false ->
+     e_q e = q /\
+     (stamps_near q e (e_stx e) crx -> bound_for a (q_ctx q) (e_srx e) (e_stx e) crx (e_theta e))) /\
+  (a_inter a = true ->
+     exists e' c', w_gprev w = Some (e', c') /\ In e' (w_exs w) /\
+       (stamps_near q e' (e_rtx e') c' ->
+        bound_for a (q_ctx (e_q e')) (e_srx e') (e_rtx e') c' (e_theta e'))).
+Proof.
+  intros Hr Hreach Hacc. pose proof (reachable_inv c ref w Hr Hreach) as HI.
+  destruct (accept_pairing c ref w q e crx a HI Hacc) as [Hp [_ [_ [Heq [Hoff Hrtd]]]]].
+  destruct HI as [_ [Hexs _]].
+  destruct Hacc as [_ [_ [Hin [_ [Harr _]]]]].
+  split.
+  - intros Hb. split; [exact Heq|]. intros Hn.
+    destruct Hp as [[_ [_ [P0 [P1 [P2 P3]]]]]|[Hi _]]; [|rewrite Hi in Hb; discriminate].
+    destruct Hn as [Ht [N0 [N1 [N2 [N3 [M1 [M2 [M3 M4]]]]]]]]. rewrite Heq in *.
+    destruct (exs_ok_in _ Hexs e Hin) as [r [[E1 _] _]]. rewrite Heq in E1.
+    destruct Harr as [_ [_ [_ [_ [A1 _]]]]].
+    pose proof (T_bounds q (e_srx e) Ht N1). pose proof (T_bounds q (e_stx e) Ht N2).
+    apply bound_core; try assumption; lia.
+  - intros Hb.
+    destruct Hp as [[Hi _]|[_ [e' [c' [Hg [Hin' [Harr' [P0 [P1 [P2 P3]]]]]]]]]]; [rewrite Hi in Hb; discriminate|].
+    exists e', c'. split; [exact Hg|]. split; [exact Hin'|]. intros Hn.
+    destruct Hn as [Ht [N0 [N1 [N2 [N3 [M1 [M2 [M3 M4]]]]]]]].
+    destruct (exs_ok_in _ Hexs e' Hin') as [r [[E1 _] _]].
+    destruct Harr' as [_ [_ [_ [_ [_ A2]]]]].
+    pose proof (T_bounds q _ Ht N0). pose proof (T_bounds q _ Ht N1).
+    pose proof (T_bounds q _ Ht N2). pose proof (T_bounds q _ Ht N3).
+    apply bound_core; try assumption; lia.
+Qed.
+
+
+
+(* ---- summary statements ---- *)
+Theorem pairing c ref w q e crx a :
+  ref <> 0 -> reachable c ref w -> accepts c ref w q e crx a ->
+  paired_basic q e crx a \/ paired_inter w q a.
+Proof.
+  intros Hr Hreach Hacc.
+  destruct (accept_pairing c ref w q e crx a (reachable_inv c ref w Hr Hreach) Hacc) as [H _]. exact H.
+Qed.
+
+(* the oracle evaluated on a list of scripted exchanges that contains the right one *)
+Lemma bound_for_oracle a ctx srx stx crx theta lo hi xs :
+  bound_for a ctx srx stx crx theta -> lo <= ctx -> crx <= hi ->
+  In {| x_lo0 := lo; x_srx := srx; x_stx := stx; x_theta := theta; x_hi3 := hi |} xs ->
+  C03_ok (a_off a) (a_t0 a) (a_t1 a) (a_t2 a) (a_t3 a) xs = true.
+Proof.
+  intros [_ [_ [_ [_ H]]]] Hlo Hhi Hin. unfold C03_ok. apply existsb_exists.
+  eexists. split; [exact Hin|]. apply H; assumption.
+Qed.
+
+(* the receive loop accepts only what process_response accepts *)
+Lemma recv_loop_accept c ref p ireq req now0 ctx1 ds : forall retries a,
+  recv_loop c ref p ireq req now0 ctx1 retries ds = AAccept a ->
+  exists r crx cr, In (DgResp r crx) ds /\
+    process_response c ref p ireq req now0 ctx1 r crx cr = DAccept a.
+Proof.
+  induction ds as [|d ds IH]; intros retries a H; [discriminate|].
+  cbn [recv_loop] in H. destruct d as [|r crx].
+  - destruct (retries =? 1); [discriminate|].
+    destruct (IH _ _ H) as [r [crx [cr [Hin Hp]]]]. exists r, crx, cr. split; [right; exact Hin|exact Hp].
+  - destruct (process_response c ref p ireq req now0 ctx1 r crx (negb (retries =? 1))) as [|e|a'] eqn:P.
+    + destruct (IH _ _ H) as [r' [crx' [cr [Hin Hp]]]]. exists r', crx', cr. split; [right; exact Hin|exact Hp].
+    + discriminate.
+    + injection H as <-. exists r, crx, (negb (retries =? 1)). split; [left; reflexivity|exact P].
+Qed.
+
+(* ---- a concrete run: basic exchange, then an interleaved one, server 7 s ahead ---- *)
+Module Ex.
+Definition c := {| c_scion := false; c_im := true |}.
+Definition t := 1790000000000000000.
+Definition th := 7000000000.
+Definition mkq (id : nat) (p : prev_t) (now0 ctx : Z) : reqinfo :=
+  {| q_id := id; q_ireq := fst (build_request c 1 p now0); q_pkt := snd (build_request c 1 p now0);
+     q_now0 := now0; q_ctx := ctx |}.
+Definition q0 := mkq 0 prev_init t (t + 1000).
+Definition w1 := w_send w_init q0.
+Definition e1 := {| e_q := q0; e_srx := t + 5000 + th; e_stx := t + 7000 + th; e_rtx := t + 7500 + th; e_theta := th;
+                    e_reply := {| k_lvm := 36; k_stratum := 1; k_org := k_tx (q_pkt q0);
+                                  k_rx := time64_of_time (t + 5000 + th); k_tx := time64_of_time (t + 7000 + th) |} |}.
+Definition w2 := w_handle w1 e1.
+Definition w3 := after_recv c 1 w2 q0 e1 (t + 9000).
+Definition q1 := mkq 1 (w_prev w3) (t + 1000000000) (t + 1000001000).
+Definition w4 := w_send w3 q1.
+Definition e2 := {| e_q := q1; e_srx := t + 1000005000 + th; e_stx := t + 1000007000 + th; e_rtx := t + 1000007700 + th;
+                    e_theta := th;
+                    e_reply := {| k_lvm := 36; k_stratum := 1; k_org := k_rx (q_pkt q1);
+                                  k_rx := time64_of_time (t + 1000005000 + th); k_tx := time64_of_time (t + 7500 + th) |} |}.
+Definition w5 := w_handle w4 e2.
+End Ex.
+
+Lemma arrival_ex1 : arrival_ok Ex.q0 Ex.e1 (Ex.t + 9000).
+Proof. unfold arrival_ok, time_ok. vm_compute. repeat split; congruence. Qed.
+
+Example run_reachable : reachable Ex.c 1 Ex.w5.
+Proof.
+  assert (R1 : reachable Ex.c 1 Ex.w1).
+  { eapply reach_step; [apply reach_init|]. unfold Ex.w1, Ex.q0, Ex.mkq.
+    apply (st_send Ex.c 1 w_init Ex.t (Ex.t + 1000)); [reflexivity|apply surjective_pairing]. }
+  assert (R2 : reachable Ex.c 1 Ex.w2).
+  { eapply reach_step; [exact R1|]. apply st_handle; [left; reflexivity|].
+    unfold ex_ok. split; [vm_compute; congruence|]. split; [vm_compute; reflexivity|]. split; [vm_compute; reflexivity|].
+    split; [intros e0 []|]. left. unfold reply_basic. repeat split; reflexivity. }
+  assert (R3 : reachable Ex.c 1 Ex.w3).
+  { eapply reach_step; [exact R2|]. apply st_recv; [reflexivity|reflexivity|left; reflexivity|reflexivity|exact arrival_ex1]. }
+  assert (R4 : reachable Ex.c 1 Ex.w4).
+  { eapply reach_step; [exact R3|]. unfold Ex.w4, Ex.q1, Ex.mkq.
+    apply (st_send Ex.c 1 Ex.w3 (Ex.t + 1000000000) (Ex.t + 1000001000)); [vm_compute; reflexivity|apply surjective_pairing]. }
+  assert (Hexs : w_exs Ex.w4 = [Ex.e1]) by (vm_compute; reflexivity).
+  eapply reach_step; [exact R4|]. apply st_handle; [left; reflexivity|].
+  unfold ex_ok. rewrite Hexs. split; [vm_compute; congruence|]. split; [vm_compute; reflexivity|]. split; [vm_compute; reflexivity|].
+  split.
+  - intros e0 [<-|[]]. vm_compute. congruence.
+  - right. unfold reply_inter. split; [reflexivity|]. split; [vm_compute; congruence|]. split; [reflexivity|].
+    exists Ex.e1. split; [left; reflexivity|]. split; vm_compute; reflexivity.
+Qed.
+
+Example run_accepts_interleaved :
+  exists a, accepts Ex.c 1 Ex.w5 Ex.q1 Ex.e2 (Ex.t + 1000009000) a /\ a_inter a = true /\
+    w_gprev Ex.w5 = Some (Ex.e1, Ex.t + 9000) /\
+    stamps_near Ex.q1 Ex.e1 (e_rtx Ex.e1) (Ex.t + 9000) /\
+    a_off a = 7000001250 /\ a_rtd a = 5500.
+Proof.
+  eexists. split; [|split; [|split; [|split]]].
+  - unfold accepts. split; [reflexivity|]. split; [reflexivity|]. split; [left; reflexivity|]. split; [reflexivity|].
+    split; [unfold arrival_ok, time_ok; vm_compute; repeat split; congruence|]. vm_compute. reflexivity.
+  - reflexivity.
+  - vm_compute. reflexivity.
+  - unfold stamps_near, near, in_window, mag_ok, time_ok. vm_compute. repeat split; congruence.
+  - split; vm_compute; reflexivity.
 Qed.
